@@ -131,6 +131,11 @@ func pkgOf(f *ssa.Function) *ssa.Package {
 		if o := g.Origin(); o != nil && o.Package() != nil {
 			return o.Package()
 		}
+		if obj := g.Object(); obj != nil && obj.Pkg() != nil {
+			if sp := g.Prog.Package(obj.Pkg()); sp != nil {
+				return sp
+			}
+		}
 	}
 	return nil
 }
@@ -150,7 +155,14 @@ func (c *Ctx) NewE1(home *ssa.Package, opaqueCross bool) *absint.Analyzer {
 	if opaqueCross {
 		a.Opaque = func(f *ssa.Function) bool {
 			pk := pkgOf(f)
-			return pk != nil && pk != home
+			if pk == nil || pk == home {
+				return false
+			}
+			// small helpers are always analysed in their caller's context
+			if strings.HasSuffix(pk.Pkg.Path(), "protocol/utils") || strings.HasSuffix(pk.Pkg.Path(), "shared/consts") {
+				return false
+			}
+			return true
 		}
 	}
 	a.PureHelpers = map[string]bool{
